@@ -110,6 +110,10 @@ def functions(G):
         return jax.lax.cond(flag > 0, lambda: pp(a, 1.0), lambda: pp(a, 2.0) * 1.0)
     F["cond-inside"] = (f_cond, [((v3, jnp.array([1.0, -1.0, 1.0])), (0, 0), None), ((v3, 1.0), (0, None), None)])
 
+    def f_kwdens(x, m, sc):
+        return normal.logpdf(x, m, scale=sc) + normal.logpdf(x, loc=m * 0.5, scale=sc * 2.0)
+    F["log-density-keyword-params"] = (f_kwdens, [((v3, v3 * 0.5, v3 + 1.0), (0, 0, 0), None), ((v3, 0.25, v3 + 1.0), (0, None, 0), None), ((m23, v3, 2.0), (1, 0, None), None)])
+
     def f_pytree(d):
         return pp(d["a"], d["b"][0]) + d["b"][1]
     F["pytree-axes"] = (f_pytree, [(({"a": v3, "b": (v3 * 2, 1.0)},), ({"a": 0, "b": (0, None)},), None)])
@@ -188,7 +192,7 @@ def check_function(G, ctx, name, f, args, in_axes, axis_size):
         case["lanes_differing"] = bad
         cls = "vmap-differing-rank" if lane_ranks_differ(args, in_axes) else None
         ctx.property_failure(cls, f"modular_vmap({name}, in_axes={in_axes}): lanes {bad} differ from f applied to the slices (lane/parameter pairing or layout)", case, matches_asis=cls is not None)
-    if name in ("deterministic", "log-density"):
+    if name in ("deterministic", "log-density", "log-density-keyword-params"):
         ref = np.asarray(jax.vmap(f, in_axes=in_axes, axis_size=axis_size)(*args))
         if ref.shape != got.shape or not np.allclose(ref, got, rtol=1e-5, atol=1e-5):
             ctx.property_failure(None, f"modular_vmap({name}) differs from jax.vmap on a deterministic/density function", case)
@@ -235,7 +239,29 @@ def combinator(G, ctx):
         a = normal(m, s) @ "a"
         b = normal(a * 2.0, 0.5) @ "b"
         return a + b
+    @G.gen
+    def callee_kw(m, s):
+        a = normal(m, scale=s) @ "a"                 # the lane-wise parameter is passed BY KEYWORD
+        b = normal(loc=a * 2.0, scale=0.5) @ "b"
+        return a + b
     ms = jnp.array([0.0, 1.0, -1.0])
+    kw_cases = (("vmap(0,0) keyword params", callee_kw.vmap(in_axes=(0, 0)), (ms, jnp.array([1.0, 2.0, 0.5])), lambda i: (ms[i], jnp.array([1.0, 2.0, 0.5])[i])),)
+    for name, vm, args, lane_args in kw_cases:
+        case = {"kind": "combinator", "combinator": name}
+        try:
+            tr = G.seed(vm.simulate)(jr.key(3), *args)
+            ch = tr.get_choices()
+            tot = sum(float(callee.assess(jax.tree_util.tree_map(lambda x: x[i], ch), *lane_args(i))[0]) for i in range(3))
+            if np.shape(tr.get_score()) != () or abs(float(tr.get_score()) + tot) > 1e-4 * (1 + abs(tot)):
+                ctx.property_failure(None, f"{name}: trace score {np.asarray(tr.get_score()).tolist()} != -(sum of per-lane callee densities) {-tot}", case)
+            d_all, _ = vm.assess(ch, *args)
+            if np.shape(d_all) != () or abs(float(d_all) - tot) > 1e-4 * (1 + abs(tot)):
+                ctx.property_failure(None, f"{name}: assess {np.asarray(d_all).tolist()} != sum of per-lane densities {tot}", case)
+        except Exception as ex:
+            impl.reset_handlers()
+            ctx.property_failure(None, f"{name} raised {type(ex).__name__}: {str(ex)[:160]}", case)
+        ctx.case(sample=case, nontrivial_key=("comb", name))
+        ctx.count("combinator")
     for name, vm, args, lane_args in (
         ("vmap(0,None)", callee.vmap(in_axes=(0, None)), (ms, 1.5), lambda i: (ms[i], 1.5)),
         ("vmap(0,0)", callee.vmap(in_axes=(0, 0)), (ms, jnp.array([1.0, 2.0, 0.5])), lambda i: (ms[i], jnp.array([1.0, 2.0, 0.5])[i])),
